@@ -8,9 +8,9 @@ from replay import checker
 
 SIGMAS = (1.0, 2.0 ** -10, 2.0 ** 10)     # unit-scale sweep (DESIGN.md 4.3): dyadic, exact in floats
 # frames (scale, shift): the unit-scale sweep plus a far-away origin (absolute tolerances such as
-# numpy.isclose's 1e-5*|t| become visible when the recording starts at 2^20)
+# numpy.isclose's 1e-5*|t| become visible when the recording starts at 2^30)
 # and a tiny unit (absolute tolerances such as 1e-12 then exceed the grid spacing)
-FRAMES = ((1.0, 0.0), (2.0 ** -10, 0.0), (2.0 ** 10, 0.0), (1.0, 2.0 ** 20), (2.0 ** -40, 0.0))
+FRAMES = ((1.0, 0.0), (2.0 ** -10, 0.0), (2.0 ** 10, 0.0), (1.0, 2.0 ** 30), (2.0 ** -40, 0.0))
 
 
 def _mm(sub, text, observed=None, expected=None):
